@@ -282,7 +282,13 @@ class RepeatedNodeWrapper(MutableSequence[_M]):
         return RepeatedNodeWrapper(repeated, self._field)
 
     def drop_many(self, indexes: Iterable[int]) -> None:
-        indexes = sorted(indexes, reverse=True)
+        length = len(self._repeated.items)
+        normalized = set[int]()
+        for index in indexes:
+            if not -length <= index < length:
+                raise IndexError('list index out of range')
+            normalized.add(index + length if index < 0 else index)
+        indexes = sorted(normalized, reverse=True)
         count = itertools.count()
         ranges = (
             list(r) for _, r in itertools.groupby(indexes, key=lambda i: i + next(count))
